@@ -332,6 +332,16 @@ func (e *C18) podsPart(ctx *core.Ctx, s *simapi.Store, ctl *kit.Controllers, sd 
 	eds.Spec.Strategy.RollingUpdate.SlowStartAdditiveIncrease = inc
 	s.Inject(eds)
 	s.Inject(rs)
+	// two more settings of the same daemonset that select every node and sort first, neither of them
+	// valid: one the setting controller has not reconciled yet (empty status), one left in status error
+	// with an empty error text (what a reconcile interrupted by a failed listing leaves behind)
+	for i, stt := range []v1.ExtendedDaemonsetSettingStatus{{}, {Status: v1.ExtendedDaemonsetSettingStatusError}} {
+		x := &v1.ExtendedDaemonsetSetting{ObjectMeta: metav1.ObjectMeta{Name: fmt.Sprintf("a%d-not-valid", i), Namespace: "ns", CreationTimestamp: metav1.NewTime(kit.T0)}}
+		x.Spec.Reference = &autoscalingv1.CrossVersionObjectReference{Kind: "ExtendedDaemonset", Name: "foo"}
+		x.Spec.Containers = []v1.ExtendedDaemonsetSettingContainerSpec{{Name: "main", Resources: corev1.ResourceRequirements{Requests: corev1.ResourceList{"cpu": resource.MustParse(fmt.Sprintf("%d", 77+i))}}}}
+		x.Status = stt
+		s.Inject(x)
+	}
 	out := ctl.Reconcile("ers", "ns", "foo-a", "fn")
 	if out.Panic != "" {
 		ctx.Violation("C18", "C18.no-panic", map[string]string{"panic": out.Panic, "where": "ers"}, desc)
